@@ -110,10 +110,14 @@ func (e *vfFwdExec) notify() {
 	}
 }
 
+// vfFwdResp: the i-th response of the source; every second one is a watermark-only batch (no tasks, advanced
+// exclusive high watermark), the shape Temporal sends when nothing for this cluster happened.
 func vfFwdResp(i int) *adminservice.StreamWorkflowReplicationMessagesResponse {
-	return &adminservice.StreamWorkflowReplicationMessagesResponse{Attributes: &adminservice.StreamWorkflowReplicationMessagesResponse_Messages{
-		Messages: &replicationv1.WorkflowReplicationMessages{ExclusiveHighWatermark: int64(100 + i),
-			ReplicationTasks: []*replicationv1.ReplicationTask{{SourceTaskId: int64(99 + i)}}}}}
+	m := &replicationv1.WorkflowReplicationMessages{ExclusiveHighWatermark: int64(100 + i)}
+	if i%2 == 0 {
+		m.ReplicationTasks = []*replicationv1.ReplicationTask{{SourceTaskId: int64(99 + i)}}
+	}
+	return &adminservice.StreamWorkflowReplicationMessagesResponse{Attributes: &adminservice.StreamWorkflowReplicationMessagesResponse_Messages{Messages: m}}
 }
 func vfFwdAck(i int) *adminservice.StreamWorkflowReplicationMessagesRequest {
 	return &adminservice.StreamWorkflowReplicationMessagesRequest{Attributes: &adminservice.StreamWorkflowReplicationMessagesRequest_SyncReplicationState{
